@@ -36,7 +36,7 @@ def find(segs, fc):
 
 
 
-def _exact_shift(cx, u, fl, e):
+def _exact_shift(cx, u, fl, e, strict=True):
     """`e` is E := <a dts of the taken queue> | E - K (overflow-checked, wrapping, or saturating when K is a first DTS), K := constant | write-once
     state field.  Anything else (max/min/clamp, a K taken from another clock, a K that changes during the stream) is not a constant shift."""
     from .. import guards
@@ -51,9 +51,13 @@ def _exact_shift(cx, u, fl, e):
         a, k, kind = e[2], e[3], "checked"
     elif e[0] == "call" and e[1] in ("core::num::wrapping_sub", "core::num::saturating_sub") and len(e[2]) == 2:
         a, k, kind = e[2][0], e[2][1], e[1].rsplit("::", 1)[1]
+    elif not strict and e[0] == "call" and e[1] in ("std::cmp::Ord::max", "std::cmp::Ord::min", "std::cmp::max", "std::cmp::min", "std::cmp::Ord::clamp"):
+        # a clamp of the own first DTS against another value: equal to the first DTS whenever the other value does not bind (e.g. the
+        # estimated end of the previous fragment for constant spacing); whether it binds is a value-level question
+        return None, "`%s` of the first DTS and another value" % e[1].rsplit("::", 1)[1]
     else:
         return False, "it is computed with `%s`, which is not a subtraction of a constant" % (e[1] if e[0] in ("call", "bin") else e[0])
-    ok, why = _exact_shift(cx, u, fl, a)
+    ok, why = _exact_shift(cx, u, fl, a, strict)
     if not ok:
         return ok, why
     if k[0] == "call" and k[1].endswith("Option::unwrap_or") and k[2][1][0] == "const":
@@ -79,6 +83,79 @@ def _exact_shift(cx, u, fl, e):
                 return False, ("the subtraction saturates and the subtrahend self.%s is set from `%s`, not from the first decode time: when it exceeds a segment's first DTS the difference "
                                "is clamped to 0 and is no longer the same constant for every segment" % (fld, rv[:60]))
     return True, None
+
+
+def tfdt_value(cx, u):
+    """what flush_segment hands the segment builder as base decode time: (depends on the own segment?, text, resolved expression, body)"""
+    fl = FM + "::flush_segment"
+    shape_e = None
+    fb = u.bodies.get(fl)
+    ok, detail = False, "flush_segment not found"
+    if fb:
+        for bb, t, name, info in mir.calls(fb):
+            if name == SEG:
+                e = sym.expr(fb, t["args"][2])
+                srcs = sym.sources(e)
+                detail = sym.show(e)[:160]
+                ve_final = None
+                dep_taken = any(isinstance(x, tuple) and x and x[0] == "call" and x[1] == "std::mem::take" for x in sym.walk(e))
+                dep_dts = "dts" in detail
+                # a local copy of an element of the taken vector (`let first = samples[0].dts`)
+                for x in sym.walk(e):
+                    if isinstance(x, tuple) and x and x[0] == "load" and str(x[1]).startswith("_") and str(x[1]).split(".")[0][1:].isdigit():
+                        le = sym.expr_local(fb, int(str(x[1]).split(".")[0][1:]))
+                        if le[0] == "call" and le[1] == "std::mem::take":
+                            dep_taken = True
+                # a state field that was assigned from the taken vector *before* the call also counts
+                if not dep_taken:
+                    for s_ in srcs:
+                        if s_[0] == "load" and s_[1].startswith("arg1."):
+                            fld = s_[1].split(".")[1]
+                            dom = mir.dominators(fb)
+                            for (sbb, si, (root, path), why, node) in cx.st.sites[fl]:
+                                if root == ("arg", 1) and path[:1] == (fld,) and why.startswith("assign") and sbb in dom[bb] and sbb != bb:
+                                    ve = sym.expr_rv(fb, node["rv"])
+                                    from_taken = any(isinstance(x, tuple) and x and x[0] == "call" and x[1] == "std::mem::take" for x in sym.walk(ve))
+                                    for x in sym.walk(ve):
+                                        if isinstance(x, tuple) and x and x[0] == "load" and x[1].startswith("_") and x[1].split(".")[0][1:].isdigit():
+                                            le = sym.expr_local(fb, int(x[1].split(".")[0][1:]))
+                                            if le[0] == "call" and le[1] == "std::mem::take":
+                                                from_taken = True
+                                    # the queue itself, read before it is taken in the same call, is the same segment
+                                    qs = set()
+                                    for bb2, t2, name2, info2 in mir.calls(fb):
+                                        if name2 and mir.norm(name2) in ("std::mem::take", "core::mem::take") and t2["args"]:
+                                            a2 = sym.expr(fb, t2["args"][0])
+                                            while a2[0] == "ref":
+                                                a2 = a2[1]
+                                            if a2[0] in ("refplace", "load"):
+                                                qs.add(a2[1])
+                                    if any(isinstance(x, tuple) and x and x[0] == "load" and any(str(x[1]).startswith(q_ + ".[]") for q_ in qs) for x in sym.walk(ve)):
+                                        from_taken = True
+                                    if from_taken and "dts" in sym.show(ve):
+                                        dep_taken, dep_dts = True, True
+                                        ve_final = ve
+                                        detail += " where self.%s := %s" % (fld, sym.show(ve)[:100])
+                ok = dep_taken and dep_dts
+                if ok:
+                    shape_e = ve_final if ve_final is not None else e
+    return ok, detail, shape_e, fb
+
+
+def tfdt_rule(cx, u, run, R, strict):
+    """R2 of C11 (strict=False) / the value clause of C16 (strict=True)"""
+    ok, detail, shape_e, fb = tfdt_value(cx, u)
+    fl = FM + "::flush_segment"
+    if ok and shape_e is not None:
+        sh_ok, sh_why = _exact_shift(cx, u, fl, shape_e, strict)
+        if sh_ok is None:
+            run.ok(R, "tfdt-exact-shift", "not decided for this form: %s" % sh_why)
+        else:
+            run.check(sh_ok, R, "tfdt-exact-shift", "base decode time is the segment's first DTS, or that minus a write-once stream constant in exact arithmetic",
+                      "the base decode time (%s) is not `own first DTS - one stream-wide constant`: %s" % (sym.show(shape_e)[:120], sh_why), mir.loc_of(fb))
+    run.check(ok, R, "tfdt-depends-on-own-segment", "base decode time = %s" % detail,
+              "the base decode time written into segment k (%s) does not depend on any sample of segment k: it is computed from earlier segments only, so for a non-zero "
+              "first DTS or irregular spacing it is not `first DTS - constant`" % detail, mir.loc_of(fb) if fb else None)
 
 def check(prog, run):
     run.rule("R5", "sample flags/times are the submitted ones: no field of a queued sample is overwritten between write and segment building")
@@ -146,64 +223,7 @@ def check(prog, run):
     tval = B.field_value(tv, 4, 8)
     run.check(tvf == ("const", b"\x01\x00\x00\x00") and tval[0] == "expr" and tval[1][1] == ("param", pn[2]), "R4", "tfdt version", "version 1, 64-bit base time = the builder's parameter",
               "tfdt is not a version-1 box carrying the builder's base-decode-time parameter unmodified")
-    # R2: in flush_segment, what is passed as base decode time?
-    fl = FM + "::flush_segment"
-    fb = u.bodies.get(fl)
-    ok, detail = False, "flush_segment not found"
-    if fb:
-        for bb, t, name, info in mir.calls(fb):
-            if name == SEG:
-                e = sym.expr(fb, t["args"][2])
-                srcs = sym.sources(e)
-                detail = sym.show(e)[:160]
-                ve_final = None
-                dep_taken = any(isinstance(x, tuple) and x and x[0] == "call" and x[1] == "std::mem::take" for x in sym.walk(e))
-                dep_dts = "dts" in detail
-                # a local copy of an element of the taken vector (`let first = samples[0].dts`)
-                for x in sym.walk(e):
-                    if isinstance(x, tuple) and x and x[0] == "load" and str(x[1]).startswith("_") and str(x[1]).split(".")[0][1:].isdigit():
-                        le = sym.expr_local(fb, int(str(x[1]).split(".")[0][1:]))
-                        if le[0] == "call" and le[1] == "std::mem::take":
-                            dep_taken = True
-                # a state field that was assigned from the taken vector *before* the call also counts
-                if not dep_taken:
-                    for s_ in srcs:
-                        if s_[0] == "load" and s_[1].startswith("arg1."):
-                            fld = s_[1].split(".")[1]
-                            dom = mir.dominators(fb)
-                            for (sbb, si, (root, path), why, node) in cx.st.sites[fl]:
-                                if root == ("arg", 1) and path[:1] == (fld,) and why.startswith("assign") and sbb in dom[bb] and sbb != bb:
-                                    ve = sym.expr_rv(fb, node["rv"])
-                                    from_taken = any(isinstance(x, tuple) and x and x[0] == "call" and x[1] == "std::mem::take" for x in sym.walk(ve))
-                                    for x in sym.walk(ve):
-                                        if isinstance(x, tuple) and x and x[0] == "load" and x[1].startswith("_") and x[1].split(".")[0][1:].isdigit():
-                                            le = sym.expr_local(fb, int(x[1].split(".")[0][1:]))
-                                            if le[0] == "call" and le[1] == "std::mem::take":
-                                                from_taken = True
-                                    # the queue itself, read before it is taken in the same call, is the same segment
-                                    qs = set()
-                                    for bb2, t2, name2, info2 in mir.calls(fb):
-                                        if name2 and mir.norm(name2) in ("std::mem::take", "core::mem::take") and t2["args"]:
-                                            a2 = sym.expr(fb, t2["args"][0])
-                                            while a2[0] == "ref":
-                                                a2 = a2[1]
-                                            if a2[0] in ("refplace", "load"):
-                                                qs.add(a2[1])
-                                    if any(isinstance(x, tuple) and x and x[0] == "load" and any(str(x[1]).startswith(q_ + ".[]") for q_ in qs) for x in sym.walk(ve)):
-                                        from_taken = True
-                                    if from_taken and "dts" in sym.show(ve):
-                                        dep_taken, dep_dts = True, True
-                                        ve_final = ve
-                                        detail += " where self.%s := %s" % (fld, sym.show(ve)[:100])
-                ok = dep_taken and dep_dts
-                if ok:
-                    shape_e = ve_final if ve_final is not None else e
-                    sh_ok, sh_why = _exact_shift(cx, u, fl, shape_e)
-                    run.check(sh_ok, "R2", "tfdt-exact-shift", "base decode time is the segment's first DTS, or that minus a write-once stream constant in exact arithmetic",
-                              "the base decode time (%s) is not `own first DTS - one stream-wide constant`: %s" % (sym.show(shape_e)[:120], sh_why), mir.loc_of(fb))
-    run.check(ok, "R2", "tfdt-depends-on-own-segment", "base decode time = %s" % detail,
-              "the base decode time written into segment k (%s) does not depend on any sample of segment k: it is computed from earlier segments only, so for a non-zero "
-              "first DTS or irregular spacing it is not `first DTS - constant`" % detail, mir.loc_of(fb) if fb else None)
+    tfdt_rule(cx, u, run, "R2", strict=False)
     # R3 init segment
     ini = FM + "::init_segment"
     try:
